@@ -19,7 +19,7 @@ pub fn property() -> Property {
     Property {
         id: "C12",
         level: "fault_enumeration",
-        rule: "https requests carrying unique marker strings (path, query, header, cookie, body, Basic credentials) are sent through a scripted proxy connection (http and https proxy URLs, with and without userinfo; origin hosts domain/IPv4/IPv6 x default/explicit port). The proxy side is a scripted reply: EVERY status 100..599 (exhaustive), reply heads cut at EVERY byte offset, garbage heads, heads > 8 KiB, refusal bodies {empty, 11 B, 10 239, 10 240, 262 144 B, endless} with and without a Content-Length announced by the proxy, served whole / bytewise / in random segments; for 2xx replies the client is then spliced onto a live TLS server (bridge) whose certificate is either valid for the origin's name or only for the proxy's name (private CA added as root). Oracle on the transport trace, where every write carries the number of reply bytes the client had consumed: first bytes are `CONNECT origin-host:effective-port HTTP/1.1` (IPv6 bracketed); Proxy-Authorization decodes (standard Base64 alphabet) to the proxy URL's credentials, which include tildes at every offset modulo 3; NO write between the end of the CONNECT head and the read that delivered the last byte of a 2xx reply head; NO byte written after a non-2xx, truncated or garbage reply; the error is ConnectError{status, body} with body <= 10 240 bytes and a prefix of what the proxy sent; no marker (plain or base64) in the raw bytes written to the proxy; the request decrypted inside the tunnel carries no Proxy-Authorization; the handshake succeeds against the certificate for the origin's name and fails against one valid only for the proxy's name. Every request comes from a Session whose default headers (X-Session-Key, Cookie) carry markers as well; refusals followed by a sticky I/O error (TimedOut/WouldBlock/ConnectionReset) instead of a close stay refusals (Err, nothing written afterwards). Non-trivial: every case; distinct = hash(reply bytes, segmentation, configuration).",
+        rule: "https requests carrying unique marker strings (path, query, header, cookie, body, Basic credentials) are sent through a scripted proxy connection (http and https proxy URLs, with and without userinfo; origin hosts domain/IPv4/IPv6 x default/explicit port). The proxy side is a scripted reply: EVERY status 100..999 (exhaustive; a logger at Trace level is installed for half of the cases), reply heads cut at EVERY byte offset, garbage heads, heads > 8 KiB, refusal bodies {empty, 11 B, 10 239, 10 240, 262 144 B, endless} with and without a Content-Length announced by the proxy, served whole / bytewise / in random segments; for 2xx replies the client is then spliced onto a live TLS server (bridge) whose certificate is either valid for the origin's name or only for the proxy's name (private CA added as root). Oracle on the transport trace, where every write carries the number of reply bytes the client had consumed: first bytes are `CONNECT origin-host:effective-port HTTP/1.1` (IPv6 bracketed); Proxy-Authorization decodes (standard Base64 alphabet) to the proxy URL's credentials, which include tildes at every offset modulo 3; NO write between the end of the CONNECT head and the read that delivered the last byte of a 2xx reply head; NO byte written after a non-2xx, truncated or garbage reply; the error is ConnectError{status, body} with body <= 10 240 bytes and a prefix of what the proxy sent; no marker (plain or base64) in the raw bytes written to the proxy; the request decrypted inside the tunnel carries no Proxy-Authorization; the handshake succeeds against the certificate for the origin's name and fails against one valid only for the proxy's name. Every request comes from a Session whose default headers (X-Session-Key, Cookie) carry markers as well; refusals followed by a sticky I/O error (TimedOut/WouldBlock/ConnectionReset) instead of a close stay refusals (Err, nothing written afterwards). Non-trivial: every case; distinct = hash(reply bytes, segmentation, configuration).",
         assumptions: &["proxy credentials are drawn from unreserved characters (percent-decoding of userinfo is not fixed by the statement)", "the `Proxy-Authorization: Basic Og==` sent for proxies without credentials is recorded, not judged"],
         min_nontrivial: |t| t.pick(1_000, 10_000),
         gens,
@@ -30,7 +30,7 @@ pub fn property() -> Property {
 
 fn gens(tier: Tier) -> Vec<Gen> {
     vec![
-        Gen { name: "status", count: 500, exhaustive: true, run: run_status },
+        Gen { name: "status", count: 900, exhaustive: true, run: run_status },
         Gen { name: "cuts", count: cuts_count(), exhaustive: true, run: run_cuts },
         Gen { name: "bodies", count: 6 * 3 * 2 * 2, exhaustive: true, run: run_bodies },
         Gen { name: "refusal-then-io-error", count: (4 * 3 * 3) as u64, exhaustive: true, run: run_refusal_then_error },
